@@ -59,19 +59,6 @@ def schemaJson (S : Schema) : Json :=
     ("elements", Json.arr (S.elements.map (fun e => Json.arr #[keyJson e.1, keyJson e.2])).toArray),
     ("imports", Json.arr (S.imports.map (fun e => Json.arr #[strJson e.1, strJson e.2])).toArray)]
 
-def methodsOf (j : Json) : Methods :=
-  match j.getObjVal? "methods" with
-  | .ok m =>
-    { elems := (getArr m "elems").toList.map (fun e =>
-        match e with
-        | .arr #[.str n, .str ns, .str tn] => (n.toList, (ns.toList, tn.toList))
-        | _ => ([], ([], []))),
-      noElem := (getArr m "noElem").toList.map (fun e =>
-        match e with
-        | .arr #[.str ns, .str tn] => (ns.toList, tn.toList)
-        | _ => ([], [])) }
-  | .error _ => {}
-
 def prefMapOf (j : Json) : PrefMap :=
   (getArr j "prefixes").toList.map (fun e =>
     match e with
@@ -133,6 +120,23 @@ def builtinOfName (s : String) : Builtin :=
   | "unsignedLong" => .integer .u64 | "date" => .date | "time" => .time | "dateTime" => .dateTime
   | "duration" => .duration | "hexBinary" => .hexBinary | _ => .base64Binary
 
+def methodsOf (j : Json) : Methods :=
+  match j.getObjVal? "methods" with
+  | .ok m =>
+    { elems := (getArr m "elems").toList.map (fun e =>
+        match e with
+        | .arr #[.str n, .str ns, .str tn] => (n.toList, (ns.toList, tn.toList))
+        | _ => ([], ([], []))),
+      noElem := (getArr m "noElem").toList.map (fun e =>
+        match e with
+        | .arr #[.str ns, .str tn] => (ns.toList, tn.toList)
+        | _ => ([], [])),
+      prims := (getArr m "prims").toList.map (fun e =>
+        match e with
+        | .arr #[.str n, .str b] => (n.toList, builtinOfName b)
+        | _ => ([], .string)) }
+  | .error _ => {}
+
 def softCfg : Cfg := { validator := .soft, polymorphic := false, parseXsiType := true }
 
 /-- the switches of xml.py as measured by THIS run (the shared Generated/Facts01.lean may be rewritten
@@ -153,8 +157,13 @@ def step (j : Json) : Json :=
     let A := appOf j
     let M := methodsOf j
     let S := (gen A).withMethods M
-    Json.mkObj [("schema", schemaJson S), ("compiles", Json.bool S.compiles), ("wf", Json.bool (App.wf A)),
+    let sj := schemaJson S
+    let sj := sj.setObjVal! "elements" (Json.arr ((S.elements.map (fun e => Json.arr #[keyJson e.1, keyJson e.2]) ++
+                M.prims.map (fun e => Json.arr #[keyJson (S.tns, e.1), Json.arr #[Json.str xsNs, strJson e.2.name]])).toArray))
+    Json.mkObj [("schema", sj), ("compiles", Json.bool S.compiles), ("wf", Json.bool (App.wf A)),
                 ("methodsOk", Json.bool (M.ok (gen A))),
+                ("roots", Json.arr ((M.elems.map (·.1) ++ M.prims.map (·.1)).map (fun n =>
+                   Json.arr #[strJson (bareRootName A.facts n []), Json.bool ((gen A).declaresRoot M ((gen A).tns, bareRootName A.facts n []))])).toArray),
                 ("noClash", Json.bool (App.noClash A)), ("resolvesOk", Json.bool (App.resolvesOk A)),
                 ("sameNs", Json.bool (App.sameNsChains A)), ("set", docsJson (prefMapOf j) S),
                 ("wfparts", Json.arr (A.allClasses.map (fun C => Json.arr #[strJson C.name,
@@ -168,8 +177,9 @@ def step (j : Json) : Json :=
     let S := genA (appAOf j)
     Json.mkObj [("ok", Json.arr ((getArr j "docs").toList.map (fun d => Json.bool (S.valid (nodeOf d)))).toArray)]
   | "valid" =>
-    let S := (gen (appOf j)).withMethods (methodsOf j)
-    Json.mkObj [("ok", Json.arr ((getArr j "docs").toList.map (fun d => Json.bool (S.valid (nodeOf d)))).toArray)]
+    let S := gen (appOf j)
+    let M := methodsOf j
+    Json.mkObj [("ok", Json.arr ((getArr j "docs").toList.map (fun d => Json.bool (S.validM M (nodeOf d)))).toArray)]
   | "lex" =>
     let b := builtinOfName (getStr j "type")
     Json.mkObj [("ok", Json.bool (simpleOk b [] (getText j "s")))]
